@@ -240,6 +240,7 @@ class Interp:
         self.trace_calls = False
         self.approx = []  # over-approximations used on the current path (uninterpreted string functions, opaque results)
         self.live_gens = []
+        self.native_method_models = {}  # (native base class, method name) -> model(it, obj, *args): methods an interpreted class inherits from a standard-library class
         from .models import install_all
 
         install_all(self)
@@ -920,6 +921,18 @@ class Interp:
             ga = o.cls.find("__getattr__")
             if isinstance(ga, PFunc):
                 return self.call(PBound(ga, o), [name], {})
+            if any(isinstance(b, StubModule) for c_ in o.cls.mro() for b in c_.bases):
+                # a base class that lives in a module without a model: what it would provide is unknown
+                raise Unsupported(f"{name!r} of {o.cls.name}: the class derives from an external class the engine does not model")
+            for nb in o.cls.native_bases():
+                if nb in (object, BaseException, Exception) or issubclass(nb, BaseException) or (o.has_base and isinstance(o.base, nb)):
+                    continue
+                if hasattr(nb, name):
+                    fm = self.native_method_models.get((nb, name))
+                    if fm is not None:
+                        return lambda *a, _fm=fm, **k: _fm(self, o, *a, **k)
+                    # not a missing attribute: the class inherits it from a standard-library class whose code the engine does not interpret
+                    raise Unsupported(f"{name!r} of {o.cls.name} is inherited from the native class {nb.__name__}, which the engine does not model")
             raise PyRaise(AttributeError(f"'{o.cls.name}' object has no attribute '{name}'"))
         if isinstance(o, PClass):
             if name == "__name__":
